@@ -2,6 +2,6 @@ SPECIFICATION Spec
 CONSTANTS
   NSym = 2
   MaxWord = 3
-  Mode = "arith"
-INVARIANTS PinnedScoreSafe
+  Mode = "split"
+INVARIANTS Found ArithSafe Markup
 CHECK_DEADLOCK FALSE
